@@ -9,8 +9,11 @@ trap 'git -C /repo checkout -- . ' EXIT
 cd ${VERIF_DIR:-/verif}
 for p in "$@"; do
   s=$(date +%s)
+  # the evidence of a run on a SEEDED tree must never replace the evidence of the unchanged tree
+  [ -f evidence/$p.json ] && cp evidence/$p.json /var/tmp/evidence_keep_$p.json
   ./check $p --tier quick > /var/tmp/seed_${seed}_$p.log 2>&1
   rc=$?
+  [ -f /var/tmp/evidence_keep_$p.json ] && mv /var/tmp/evidence_keep_$p.json evidence/$p.json
   e=$(date +%s)
   echo "$seed $p rc=$rc wall=$((e-s))s :: $(grep -E '^VIOLATION|KNOWN-FINDING' /var/tmp/seed_${seed}_$p.log | cut -c1-150 | tr '\n' ';') $(grep -E 'failing:|INCONCLUSIVE' /var/tmp/seed_${seed}_$p.log | cut -c1-250 | tr '\n' ';')"
 done
